@@ -222,6 +222,17 @@ def _load_path_functions(prog):
     return list(seen.values())
 
 
+HEADER_FIELDS = ('sigtype', '_sigtype', 'pubalg', '_pubalg', 'halg', '_halg')
+
+
+def _is_fresh_local(fn, name):
+    """A local bound (only) to a freshly constructed object in this function (`x = K()`): setting fields of an object that is being
+    built (make_onepass, a new packet) is construction, not normalisation of something received."""
+    vals = [n.value for n in ast.walk(fn.node) if isinstance(n, ast.Assign) and any(isinstance(t, ast.Name) and t.id == name for t in n.targets)]
+    return bool(vals) and name not in fn.params and all(isinstance(v, ast.Call) and isinstance(v.func, ast.Name) and v.func.id[:1].isupper() and
+                                                        not v.args and not v.keywords for v in vals)
+
+
 def check_no_normalisation_on_load(rep, prog, ci, raw):
     """"Received" means no normalisation step between parse and verify: on the load path nothing may be filed into the hashed
     area of a signature (addnew with hashed other than the literal False, a store through the mapping interface of a
@@ -254,6 +265,30 @@ def check_no_normalisation_on_load(rep, prog, ci, raw):
                             rep.violation('C05.1', fn.qualname, 'writes %s while loading' % raw,
                                           'only SubPackets.parse may write the received hashed-area octets while an object is being read',
                                           where=w, found=ast.unparse(node)[:160])
+            # the header octets that are hashed (type, algorithms, version): a reader writes its OWN fields from its buffer (C05.5
+            # decides that for SignatureV4.parse); rewriting them on another object while loading is a normalisation
+            hdr = []
+            if isinstance(node, (ast.Assign, ast.AugAssign, ast.AnnAssign)):
+                tg = node.targets if isinstance(node, ast.Assign) else [node.target]
+                for t in tg:
+                    for x in (list(t.elts) if isinstance(t, (ast.Tuple, ast.List)) else [t]):
+                        if isinstance(x, ast.Attribute) and x.attr in HEADER_FIELDS:
+                            hdr.append(x.value)
+                        if isinstance(x, ast.Attribute) and x.attr == 'version' and isinstance(x.value, ast.Attribute) and x.value.attr == 'header':
+                            hdr.append(x.value.value)
+            if isinstance(node, ast.Call) and dotted(node.func) == 'setattr' and len(node.args) >= 2 and isinstance(node.args[1], ast.Constant) and \
+                    node.args[1].value in HEADER_FIELDS:
+                hdr.append(node.args[0])
+            for base in hdr:
+                own = isinstance(base, ast.Name) and fn.params and base.id == fn.params[0] and fn.name in ('parse', '__init__')
+                fresh = isinstance(base, ast.Name) and _is_fresh_local(fn, base.id)
+                if own or fresh:
+                    continue
+                n += 1
+                rep.violation('C05.1', fn.qualname, 'rewrites a header field of a loaded signature: %s' % ast.unparse(node)[:100],
+                              'the type / algorithm / version octet of a signature is rewritten while it is being read, so the octet hashed '
+                              'on verification is not the one received', where=w, expected='header fields are written only by the packet\'s own parse',
+                              found=ast.unparse(node)[:160])
             if isinstance(node, ast.Call) and isinstance(node.func, ast.Attribute) and isinstance(node.func.value, ast.Attribute) and \
                     node.func.value.attr == 'subpackets' and node.func.attr in ('__setitem__', 'update', 'setdefault'):
                 tgt = node
@@ -310,6 +345,35 @@ def check_replay(rep, prog, ci, hb, raw, R):
 HASHED_COLL = '_hashed_sp'       # the collection of parsed hashed subpackets (the same name C02.5 reads the built area from)
 
 
+UNHASHED_COLL = '_unhashed_sp'
+
+
+def distinct_areas(prog, ci, me):
+    """Axioms "the hashed and the unhashed collection are two different objects" for receiver text `me` - a class invariant read
+    off __init__ (each is bound there to its own freshly constructed object and no function binds one to the other), so a test
+    such as `area is self._hashed_sp` on the unhashed collection is decided."""
+    ini = ci.methods.get('__init__')
+    fresh = {}
+    if ini is not None:
+        for s in Interp(prog, Scenario(inline=noinline)).run(ini):
+            for p, v, l, val in s.stores:
+                for a in (HASHED_COLL, UNHASHED_COLL):
+                    if p == '%s.%s' % (ini.params[0], a):
+                        fresh[a] = bool(re.match(r'^[\w.]+\(\)$', v))
+    if not (fresh.get(HASHED_COLL) and fresh.get(UNHASHED_COLL)):
+        return {}
+    for fn in prog.all_functions():
+        for n in ast.walk(fn.node):
+            if isinstance(n, ast.Assign) and isinstance(n.value, ast.Attribute) and n.value.attr in (HASHED_COLL, UNHASHED_COLL):
+                for t in n.targets:
+                    if isinstance(t, ast.Attribute) and t.attr in (HASHED_COLL, UNHASHED_COLL) and t.attr != n.value.attr:
+                        return {}
+    a, b = '%s.%s' % (me, HASHED_COLL), '%s.%s' % (me, UNHASHED_COLL)
+    return {'(%s is %s)' % (a, b): False, '(%s is %s)' % (b, a): False, '(%s is not %s)' % (a, b): True, '(%s is not %s)' % (b, a): True,
+            '(%s == %s)' % (a, a): True, '(%s is %s)' % (a, a): True, '(%s is %s)' % (b, b): True,
+            '(%s is not %s)' % (a, a): False, '(%s is not %s)' % (b, b): False}
+
+
 def _touches_hashed(s, obj):
     """Does this path change the hashed subpacket collection of `obj` (item store, rebinding, mutating call, delete)?"""
     coll = '%s.%s' % (obj, HASHED_COLL)
@@ -348,7 +412,8 @@ def check_other_stores(rep, prog, ci, raw):
         if fn is cp or _only_inlined_helper(prog, fn):
             continue
         n = 0
-        for s in Interp(prog, Scenario(inline=noinline, join_unknown=False)).run(fn):
+        ax = distinct_areas(prog, ci, fn.params[0]) if fn.cls is ci and fn.params else {}
+        for s in Interp(prog, Scenario(inline=noinline, join_unknown=False, axioms=ax)).run(fn):
             sts = _stores_to(s, raw)
             for p, v, l, _ in sts:
                 n += 1
@@ -400,7 +465,7 @@ def check_other_stores(rep, prog, ci, raw):
         raise AnalysisError('SubPackets.__setitem__ vanished')
     RS = '%s.%s' % (si.params[0], raw)
     for hashed, key in ((True, 'h_Issuer'), (False, 'Issuer'), (True, 'h_NotationData'), (False, 'NotationData')):
-        outs = Interp(prog, Scenario(inline=noinline, args=at(si, p1=Const(key)))).run(si)
+        outs = Interp(prog, Scenario(inline=noinline, args=at(si, p1=Const(key)), axioms=distinct_areas(prog, ci, si.params[0]))).run(si)
         outs = [s for s in outs if s.raised is None]
         if not outs:
             raise AnalysisError('SubPackets.__setitem__: no returning path for key %r' % key)
